@@ -235,76 +235,94 @@ def r3_packing(ctx, enc, res):
     if arm is None:
         ctx.ob("C07.R3", RES, "TransactionEncode.filter", enc, "T4 arm exists", False, stmt="T4 arm")
         return
+    ITEM = _item(enc)
+    ROWS_T = name_bound(arm, lambda v: isinstance(v, ast.Call) and call_name(v) in ("collections.defaultdict", "defaultdict"), "rows_T")
+    KEYS = name_bound(arm, lambda v: isinstance(v, ast.Call) and call_name(v) == "sorted", "keys")
     outer = [s for s in arm.body if isinstance(s, ast.For)]
     ok = False
     detail = {}
-    if len(outer) == 1 and unparse(outer[0].iter) == "item[2]" and len(outer[0].body) == 1 and isinstance(outer[0].body[0], ast.For):
+    if len(outer) == 1 and unparse(outer[0].iter) == f"{ITEM}[2]" and len(outer[0].body) == 1 and isinstance(outer[0].body[0], ast.For):
         inner = outer[0].body[0]
         row, key = unparse(outer[0].target), unparse(inner.target)
         detail = {"outer": unparse(outer[0].iter), "inner": unparse(inner.iter)}
-        if unparse(inner.iter) == "keys" and len(inner.body) == 1:
-            b = unparse(inner.body[0])
-            ok = b == f"rows_T[str({key})].append({row}.get({key}, None))"
-            detail["cell"] = b
+        if unparse(inner.iter) == KEYS and len(inner.body) == 1:
+            b_ = unparse(inner.body[0])
+            ok = b_ == f"{ROWS_T}[str({key})].append({row}.get({key}, None))"
+            detail["cell"] = b_
     ctx.ob("C07.R3", RES, "TransactionEncode.filter", outer[0] if outer else arm, "one append per (row,key) in row order; absent keys become None", ok, detail=detail, stmt="pack loop")
-    keys = assigned_value(enc, "keys")
-    ok = len(keys) == 1 and isinstance(keys[0], ast.Call) and call_name(keys[0]) == "sorted" and "r.keys() for r in item[2]" in unparse(keys[0]) \
-        and kw(keys[0], "key") is not None and unparse(kw(keys[0], "key")) == "str"
+    keys = assigned_value(enc, KEYS)
+    ok = len(keys) == 1 and isinstance(keys[0], ast.Call) and call_name(keys[0]) == "sorted" and isinstance(keys[0].args[0], ast.Call) and "union" in unparse(keys[0].args[0].func) \
+        and f".keys() for " in unparse(keys[0]) and f" in {ITEM}[2]" in unparse(keys[0]) and kw(keys[0], "key") is not None and unparse(kw(keys[0], "key")) == "str"
     ctx.ob("C07.R3", RES, "TransactionEncode.filter", enclosing_stmt(keys[0]) if keys else arm, "packed key set is the union of all row keys, sorted by str", ok, stmt="key union")
     ys = [y for s in arm.body for y in walk_shallow(s) if isinstance(y, ast.Yield)]
-    ok = bool(ys) and "'_packed': rows_T" in unparse(ys[0])
-    ctx.ob("C07.R3", RES, "TransactionEncode.filter", ys[0] if ys else arm, "the packed columns are what is emitted", ok, stmt="emit rows_T")
+    ok = bool(ys) and f"'_packed': {ROWS_T}" in unparse(ys[0])
+    ctx.ob("C07.R3", RES, "TransactionEncode.filter", ys[0] if ys else arm, "the packed columns are what is emitted", ok, stmt="emit packed columns")
     # reader numbering
-    idx = [x for x in walk_shallow(res) if isinstance(x, ast.Assign) and unparse(x.targets[0]) == "packed['index']"]
-    ctx.floor("C07.R3", "index assignment in TransactionResult", len(idx), 1)
-    for s in idx:
-        ctx.ob("C07.R3", RES, "TransactionResult.filter", s, "rows are numbered range(1, N+1)", unparse(s.value) == "range(1, N + 1)")
-    ns = assigned_value(res, "N")
+    PACKED = name_bound(res, lambda v: isinstance(v, ast.Call) and "_packed" in unparse(v), "packed")
+    NN = name_bound(res, lambda v: unparse(v) == f"len(next(iter({PACKED}.values())))", "N")
+    idx = [x for x in walk_shallow(res) if isinstance(x, ast.Assign) and unparse(x.targets[0]) == f"{PACKED}['index']"]
+    if not idx:
+        ctx.ob("C07.R3", RES, "TransactionResult.filter", res, "rows are numbered range(1, N+1)", False, stmt="no index column assignment")
+    for s_ in idx:
+        ctx.ob("C07.R3", RES, "TransactionResult.filter", s_, "rows are numbered range(1, N+1)", unparse(s_.value) == f"range(1, {NN} + 1)")
+    ns = assigned_value(res, NN)
     ctx.ob("C07.R3", RES, "TransactionResult.filter", enclosing_stmt(ns[0]) if ns else res, "N is the length of a packed column",
-           len(ns) == 1 and unparse(ns[0]) == "len(next(iter(packed.values())))", stmt="N")
-    for col, src in (("environment_id", "env_id"), ("learner_id", "lrn_id"), ("evaluator_id", "val_id")):
-        st = [x for x in walk_shallow(res) if isinstance(x, ast.Assign) and unparse(x.targets[0]) == f"packed['{col}']"]
-        ctx.ob("C07.R3", RES, "TransactionResult.filter", st[0] if st else res, f"{col} column repeats the record's {src} N times",
-               bool(st) and unparse(st[0].value) == f"repeat({src}, N)", stmt=f"packed[{col}]")
-    loops = [x for x in walk_shallow(res) if isinstance(x, ast.For) and "int_rows.items()" in unparse(x.iter)]
-    ok = bool(loops) and isinstance(loops[0].target, ast.Tuple) and unparse(loops[0].target.elts[0]) == "(env_id, lrn_id, val_id)"
-    ctx.ob("C07.R3", RES, "TransactionResult.filter", loops[0] if loops else res, "id triple is unpacked in (env,lrn,val) order", ok, stmt="unpack triple")
-    ins = [x for l in loops for x in walk_shallow(l) if isinstance(x, ast.Call) and unparse(x.func) == "int_table.insert"]
-    ctx.ob("C07.R3", RES, "TransactionResult.filter", ins[0] if ins else res, "every non-empty packed record is inserted once",
-           len(ins) == 1 and unparse(ins[0].args[0]) == "packed", stmt="insert packed")
+           len(ns) == 1 and unparse(ns[0]) == f"len(next(iter({PACKED}.values())))", stmt="N")
+    loops = [x for x in walk_shallow(res) if isinstance(x, ast.For) and isinstance(x.iter, ast.Call) and call_name(x.iter) == "sorted" and isinstance(x.target, ast.Tuple)
+             and isinstance(x.target.elts[0], ast.Tuple) and len(x.target.elts[0].elts) == 3]
+    ok = len(loops) == 1
+    ids = [unparse(e) for e in loops[0].target.elts[0].elts] if ok else ["env_id", "lrn_id", "val_id"]
+    ctx.ob("C07.R3", RES, "TransactionResult.filter", loops[0] if loops else res, "id triple is unpacked from the sorted interaction records", ok, stmt="unpack triple")
+    for col, src in zip(("environment_id", "learner_id", "evaluator_id"), ids):
+        st = [x for x in walk_shallow(res) if isinstance(x, ast.Assign) and unparse(x.targets[0]) == f"{PACKED}['{col}']"]
+        ctx.ob("C07.R3", RES, "TransactionResult.filter", st[0] if st else res, f"{col} column repeats the record's id (position {('environment_id', 'learner_id', 'evaluator_id').index(col) + 1} of the triple) N times",
+               bool(st) and unparse(st[0].value) == f"repeat({src}, {NN})", stmt=f"packed[{col}]")
+    ins = [x for l in loops for x in walk_shallow(l) if isinstance(x, ast.Call) and call_tail(x) == "insert" and x.args and unparse(x.args[0]) == PACKED]
+    ctx.ob("C07.R3", RES, "TransactionResult.filter", ins[0] if ins else res, "every non-empty packed record is inserted once", len(ins) == 1, stmt="insert packed")
+    if ins:
+        tbl = unparse(ins[0].func.value)
+        cols = [unparse(v) for v in assigned_value(res, tbl)]
+        ctx.ob("C07.R3", RES, "TransactionResult.filter", ins[0], "packed records fill the interactions table (environment_id, learner_id, evaluator_id, index)",
+               bool(cols) and "'environment_id', 'learner_id', 'evaluator_id', 'index'" in cols[0], stmt="interactions table")
 
 
 def r4_one_path(ctx, run_):
     ctx.rule("C07.R4", "Experiment.run selects sink and source by the same test, writes through encode and reads "
                        "through decode->result on both paths, and the in-memory source reads the sink's own list")
-    sink = assigned_value(run_, "sink")
-    src = assigned_value(run_, "source")
+    SINK = name_bound(run_, lambda v: isinstance(v, ast.IfExp) and has_call(v, "DiskSink"), "sink")
+    SRC = name_bound(run_, lambda v: isinstance(v, ast.IfExp) and has_call(v, "DiskSource"), "source")
+    sink = assigned_value(run_, SINK)
+    src = assigned_value(run_, SRC)
     ok = len(sink) == 1 and len(src) == 1 and isinstance(sink[0], ast.IfExp) and isinstance(src[0], ast.IfExp) \
         and unparse(sink[0].test) == unparse(src[0].test) == "result_file"
     ctx.ob("C07.R4", EXP, "Experiment.run", enclosing_stmt(sink[0]) if sink else run_, "sink and source are chosen by the same test", ok, stmt="sink/source test")
     if ok:
-        s, r = sink[0], src[0]
-        ctx.ob("C07.R4", EXP, "Experiment.run", s, "file path: DiskSink(result_file) / DiskSource(result_file)",
-               call_name(s.body) == "DiskSink" and call_name(r.body) == "DiskSource" and unparse(s.body.args[0]) == unparse(r.body.args[0]) == "result_file",
+        s_, r = sink[0], src[0]
+        ctx.ob("C07.R4", EXP, "Experiment.run", s_, "file path: DiskSink(result_file) / DiskSource(result_file)",
+               call_name(s_.body) == "DiskSink" and call_name(r.body) == "DiskSource" and unparse(s_.body.args[0]) == unparse(r.body.args[0]) == "result_file",
                stmt="disk pair")
         ctx.ob("C07.R4", EXP, "Experiment.run", r, "memory path: ListSource reads the ListSink's items",
-               call_name(s.orelse) == "ListSink" and call_name(r.orelse) == "ListSource" and unparse(r.orelse.args[0]) == "sink.items"
-               and kw(s.orelse, "foreach") is not None and unparse(kw(s.orelse, "foreach")) == "True", stmt="memory pair")
+               call_name(s_.orelse) == "ListSink" and call_name(r.orelse) == "ListSource" and unparse(r.orelse.args[0]) == f"{SINK}.items"
+               and kw(s_.orelse, "foreach") is not None and unparse(kw(s_.orelse, "foreach")) == "True", stmt="memory pair")
+    role = {}
+    for nm, cls in (("encode", "TransactionEncode"), ("decode", "TransactionDecode"), ("result", "TransactionResult"), ("workitems", "MakeTasks"),
+                    ("process", "CobaMultiprocessor"), ("chunker", "ChunkTasks")):
+        role[nm] = name_bound(run_, lambda v, cls=cls: isinstance(v, ast.Call) and call_name(v) == cls, nm)
+        v = assigned_value(run_, role[nm])
+        ctx.ob("C07.R4", EXP, "Experiment.run", enclosing_stmt(v[0]) if v else run_, f"{nm} is a {cls}", len(v) == 1 and call_name(v[0]) == cls, stmt=f"{nm} := {cls}")
+    role["preamble"] = name_bound(run_, lambda v: isinstance(v, ast.IfExp) and has_call(v, "Insert"), "preamble")
     joins = [c for c in walk_shallow(run_) if isinstance(c, ast.Call) and (call_name(c) or "").endswith("join")]
-    w = [c for c in joins if c.args and unparse(c.args[-1]) == "sink"]
-    r = [c for c in joins if c.args and unparse(c.args[0]) == "source"]
+    w = [c for c in joins if c.args and unparse(c.args[-1]) == SINK]
+    r = [c for c in joins if c.args and unparse(c.args[0]) == SRC]
     ctx.floor("C07.R4", "write/read pipelines", len(w) + len(r), 2)
     for c in w:
         names = [unparse(a) for a in c.args]
-        ok = names[-2:] == ["encode", "sink"] and names[0] == "workitems" and "process" in names and "preamble" in names \
-            and names.index("process") < names.index("preamble") < names.index("encode")
+        ok = names[-2:] == [role["encode"], SINK] and names[0] == role["workitems"] and role["process"] in names and role["preamble"] in names \
+            and names.index(role["process"]) < names.index(role["preamble"]) < names.index(role["encode"])
         ctx.ob("C07.R4", EXP, "Experiment.run", c, "write pipeline is workitems..process, preamble, encode, sink", ok, detail={"pipeline": names})
     for c in r:
         names = [unparse(a) for a in c.args]
-        ctx.ob("C07.R4", EXP, "Experiment.run", c, "read pipeline is source, decode, result", names == ["source", "decode", "result"], detail={"pipeline": names})
-    for nm, cls in (("encode", "TransactionEncode"), ("decode", "TransactionDecode"), ("result", "TransactionResult")):
-        v = assigned_value(run_, nm)
-        ctx.ob("C07.R4", EXP, "Experiment.run", enclosing_stmt(v[0]) if v else run_, f"{nm} is a {cls}", len(v) == 1 and call_name(v[0]) == cls, stmt=f"{nm} := {cls}")
+        ctx.ob("C07.R4", EXP, "Experiment.run", c, "read pipeline is source, decode, result", names == [SRC, role["decode"], role["result"]], detail={"pipeline": names})
     rets = [x for x in walk_shallow(run_) if isinstance(x, ast.Return) and x.value is not None]
     ctx.ob("C07.R4", EXP, "Experiment.run", rets[-1] if rets else run_, "run() returns the Result read back from the log",
            bool(rets) and all(isinstance(x.value, ast.Call) and call_tail(x.value) == "read" and x.value.func.value in r for x in rets), stmt="return read-back")
